@@ -1,7 +1,251 @@
-//! stub
-use serde_json::Value;
-use crate::engine::Ctx;
-pub const RULE: &str = "";
-pub const ASSUMPTIONS: &[&str] = &[];
-pub fn run(_ctx: &Ctx) {}
-pub fn replay(_part: &str, _case: &Value) -> Result<(), String> { Err("not implemented".into()) }
+//! C05 — every specific message survives its wire frame.
+
+use flipdot_core::{ChunkCount, Data, Frame, Message, Offset};
+use proptest::prelude::*;
+use serde::{Deserialize, Serialize};
+use serde_json::{json, Value};
+
+use crate::engine::{catch, h64, par_range, run_generated, show_bytes, Ctx, Stats};
+use crate::props::c01::{addr_strategy, data_strategy};
+use crate::repr::{all_addressed, M};
+
+pub const RULE: &str = "messages are all specific (non-Unknown) messages constructible through the public API: every addressed kind x all 65536 addresses x all 13 states / 6 operations and all 65536 chunk counts (exhaustive), and data chunks with generated offsets and data of every length 0..=255 (every length x 4 offsets exhaustively, contents generated), owned and borrowed; each goes Message -> Frame -> wire text (with and without CRLF) -> Frame -> Message and must come back equal; encodings of different messages must differ (all messages of an address pairwise, generated pairs of data chunks). Non-trivial = a data chunk of length < 2 or > 16, or any address/offset/count >= 0x100; distinct by construction / by hash";
+pub const ASSUMPTIONS: &[&str] = &["the harness's mirror type M converts to and from Message variant by variant (repr.rs)"];
+
+#[derive(Serialize, Deserialize, Debug, Clone)]
+pub struct MsgCase {
+    pub msg: M,
+}
+
+pub fn check_msg(m: &M, st: &mut Stats) -> Result<(), String> {
+    if m.is_unknown() {
+        return Ok(());
+    }
+    let nontrivial = match m {
+        M::Data { off, data } => data.len() < 2 || data.len() > 16 || *off >= 0x100,
+        M::Count(n) => *n >= 0x100,
+        M::Hello(a) | M::Query(a) | M::Goodbye(a) | M::PixelsComplete(a) | M::Report(a, _) | M::Req(a, _) | M::Ack(a, _) => *a >= 0x100,
+        M::Unknown { .. } => false,
+    };
+    let variants: &[bool] = if matches!(m, M::Data { .. }) { &[true, false] } else { &[true] };
+    for &owned in variants {
+        let how = if owned { "owned" } else { "borrowed" };
+        let r = catch(|| -> Result<(), String> {
+            let storage: Vec<u8> = match m {
+                M::Data { data, .. } => data.clone(),
+                _ => vec![],
+            };
+            let msg: Message<'_> = match (m, owned) {
+                (M::Data { off, .. }, false) => Message::SendData(Offset(*off), Data::try_new(&storage[..]).unwrap()),
+                _ => m.to_message(),
+            };
+            let frame = Frame::from(msg.clone());
+            for newline in [false, true] {
+                let wire = if newline { frame.to_bytes_with_newline() } else { frame.to_bytes() };
+                let back = Frame::from_bytes(&wire).map_err(|e| format!("wire form {} of {} does not decode: {e}", show_bytes(&wire), m.short()))?;
+                let msg2 = Message::from(back);
+                if msg2 != msg {
+                    let len = match m {
+                        M::Data { data, .. } => data.len().min(2),
+                        _ => 9,
+                    };
+                    return Err(format!(
+                        "sig=roundtrip:{}:len{}; {} ({how}) -> wire {} -> {}",
+                        match m {
+                            M::Data { .. } => "SendData",
+                            _ => "other",
+                        },
+                        len,
+                        m.short(),
+                        show_bytes(&wire),
+                        M::from_message(&msg2).short()
+                    ));
+                }
+                // same kind / numbers / bytes, stated on the mirror type as well (guards against a lax PartialEq)
+                if M::from_message(&msg2) != *m {
+                    return Err(format!("{} ({how}) came back as {}", m.short(), M::from_message(&msg2).short()));
+                }
+            }
+            Ok(())
+        });
+        st.eval();
+        match r {
+            Ok(Ok(())) => {}
+            Ok(Err(e)) => return Err(e),
+            Err(p) => return Err(format!("panic on the wire round trip of {} ({how}): {p}", m.short())),
+        }
+    }
+    if nontrivial {
+        st.class("nontrivial");
+    }
+    if st.want_sample() && nontrivial {
+        st.sample(json!({"message": m.short()}));
+    }
+    Ok(())
+}
+
+fn wire_of(m: &M) -> Vec<u8> {
+    Frame::from(m.to_message()).to_bytes()
+}
+
+#[derive(Serialize, Deserialize, Debug, Clone)]
+pub struct PairCase {
+    pub a: M,
+    pub b: M,
+}
+
+pub fn check_pair(c: &PairCase, st: &mut Stats) -> Result<(), String> {
+    if c.a == c.b || c.a.is_unknown() || c.b.is_unknown() {
+        return Ok(());
+    }
+    st.eval();
+    let (wa, wb) = catch(|| (wire_of(&c.a), wire_of(&c.b))).map_err(|p| format!("panic encoding: {p}"))?;
+    if wa == wb {
+        return Err(format!(
+            "different messages {} and {} share the wire encoding {}",
+            c.a.short(),
+            c.b.short(),
+            show_bytes(&wa)
+        ));
+    }
+    Ok(())
+}
+
+fn data_msg_strategy() -> impl Strategy<Value = M> {
+    (
+        prop_oneof![3 => proptest::sample::select(vec![0u16, 16, 32, 0xF0, 0x100, 0xFFF0, 0xFFFF]), 2 => addr_strategy()],
+        data_strategy(),
+    )
+        .prop_map(|(off, data)| M::Data { off, data })
+}
+
+pub fn run(ctx: &Ctx) {
+    // every addressed kind and chunk count at every address ----------------------------------
+    par_range(ctx, "all-addresses", 65536, |i, st| {
+        let addr = i as u16;
+        let msgs = all_addressed(addr);
+        let mut wires: Vec<Vec<u8>> = Vec::with_capacity(msgs.len() + 2);
+        for m in &msgs {
+            check_msg(m, st).map_err(|e| (json!({"msg": m}), e))?;
+            wires.push(wire_of(m));
+        }
+        // data chunks at this offset, empty and one byte (the short ends)
+        for data in [vec![], vec![addr as u8], vec![1, 2]] {
+            let m = M::Data { off: addr, data };
+            check_msg(&m, st).map_err(|e| (json!({"msg": m}), e))?;
+            wires.push(wire_of(&m));
+        }
+        // injectivity among everything that carries this address
+        let n = wires.len();
+        wires.sort();
+        wires.dedup();
+        st.eval();
+        if wires.len() != n {
+            return Err((json!({"address": addr}), format!("two different specific messages with address {addr:#x} share a wire encoding")));
+        }
+        if addr >= 0x100 {
+            st.nontrivial_enumerated(n as u64);
+        } else {
+            st.nontrivial_enumerated(2); // the two short data chunks
+        }
+        Ok(())
+    });
+    ctx.part_done("all-addresses", true, json!("65536 addresses x (32 addressed messages + 3 short data chunks), pairwise-distinct encodings per address"));
+
+    // data chunks: every length x a few offsets, deterministic contents ---------------------------
+    par_range(ctx, "data-all-lengths", 256, |len, st| {
+        for off in [0u16, 16, 0x1230, 0xFFF0] {
+            for fill in [0u8, 0xFF, 0x5A] {
+                let m = M::Data { off, data: (0..len as usize).map(|k| fill ^ (k as u8)).collect() };
+                check_msg(&m, st).map_err(|e| (json!({"msg": m}), e))?;
+                if len < 2 || len > 16 || off >= 0x100 {
+                    st.nontrivial(h64(&m));
+                }
+            }
+        }
+        Ok(())
+    });
+    ctx.part_done("data-all-lengths", true, json!("data chunks of every length 0..=255 x 4 offsets x 3 fills"));
+
+    run_generated(
+        ctx,
+        "data-generated",
+        ctx.tier.pick(200_000, 4_000_000),
+        || data_msg_strategy().prop_map(|msg| MsgCase { msg }),
+        |c, st| {
+            check_msg(&c.msg, st)?;
+            if let M::Data { off, data } = &c.msg {
+                if data.len() < 2 || data.len() > 16 || *off >= 0x100 {
+                    st.nontrivial(h64(&c.msg));
+                }
+            }
+            Ok(())
+        },
+    );
+
+    run_generated(
+        ctx,
+        "pairs",
+        ctx.tier.pick(100_000, 2_000_000),
+        || {
+            // pairs that are close to each other: same data different offset, prefix/extension, one byte changed,
+            // and a data chunk against the addressed messages of the same address
+            (data_msg_strategy(), any::<u16>(), any::<u8>(), 0u8..6).prop_map(|(a, x, y, kind)| {
+                let (off, data) = match &a {
+                    M::Data { off, data } => (*off, data.clone()),
+                    _ => unreachable!(),
+                };
+                let b = match kind {
+                    0 => M::Data { off: x, data: data.clone() },
+                    1 => {
+                        let mut d = data.clone();
+                        if d.len() < 255 {
+                            d.push(y);
+                        } else {
+                            d.pop();
+                        }
+                        M::Data { off, data: d }
+                    }
+                    2 => {
+                        let mut d = data.clone();
+                        if !d.is_empty() {
+                            let i = x as usize % d.len();
+                            d[i] ^= y | 1;
+                        }
+                        M::Data { off, data: d }
+                    }
+                    3 => {
+                        let all = all_addressed(off);
+                        all[x as usize % all.len()].clone()
+                    }
+                    4 => M::Count(off),
+                    _ => M::Data { off, data: vec![] },
+                };
+                PairCase { a, b }
+            })
+        },
+        |c, st| {
+            check_pair(c, st)?;
+            st.nontrivial(h64(&(&c.a, &c.b)));
+            Ok(())
+        },
+    );
+    let _ = ChunkCount(0);
+}
+
+pub fn replay(part: &str, case: &Value) -> Result<(), String> {
+    let mut st = Stats::new();
+    if part == "pairs" {
+        let c: PairCase = serde_json::from_value(case.clone()).map_err(|e| format!("bad case: {e}"))?;
+        return check_pair(&c, &mut st);
+    }
+    if let Some(a) = case.get("address").and_then(|a| a.as_u64()) {
+        let mut wires: Vec<Vec<u8>> = all_addressed(a as u16).iter().map(wire_of).collect();
+        let n = wires.len();
+        wires.sort();
+        wires.dedup();
+        return if wires.len() == n { Ok(()) } else { Err("shared encodings at that address".into()) };
+    }
+    let c: MsgCase = serde_json::from_value(case.clone()).map_err(|e| format!("bad case: {e}"))?;
+    check_msg(&c.msg, &mut st)
+}
